@@ -188,6 +188,9 @@ type JenID struct {
 	ParentPointer *JenID
 	Code          *jen.Statement
 	Variable      bool
+	// Whole is set when Code is a pointer that is only used to select fields:
+	// it is the code of the value the pointer points to.
+	Whole *jen.Statement
 }
 
 func (j *JenID) Pointer(t *Type, namer func(string) string) ([]jen.Code, *JenID) {
